@@ -144,8 +144,28 @@ end
 
 def bucket (n : Nat) : String := if n ≥ 4 then "4+" else toString n
 
+def decAcc : List Sexp → Option Accesses
+  | [.list r, .list w, .list c] => do some ⟨← r.mapM decStr, ← w.mapM decStr, ← c.mapM decStr⟩
+  | _ => none
+
 def handle (inp out : Sexp) : CaseResult :=
   match inp with
+  -- `MemoryAccesses::union` driven directly (the fold step of every definition body)
+  | .list [.atom "union", .list a, .list b] =>
+    match decAcc a, decAcc b, out with
+    | some x, some y, .list (.atom "acc" :: o) =>
+      match decAcc o with
+      | some z =>
+        let m := x.union y
+        { agree := sameL m.reads z.reads && sameL m.writes z.writes && sameL m.captures z.captures
+          specOk := sameSetB z.reads (x.reads ++ y.reads) && sameSetB z.writes (x.writes ++ y.writes) &&
+            sameSetB z.captures (x.captures ++ y.captures)
+          nontrivial := true
+          tags := ["union", s!"lhs-empty-rw:{x.reads.isEmpty && x.writes.isEmpty}",
+                   s!"rhs-captures:{!y.captures.isEmpty}"]
+          detail := s!"model={repr m} impl={out}" }
+      | none => .bad s!"undecodable output {out}"
+    | _, _, _ => .bad s!"undecodable case {inp} {out}"
   | .list [.atom "ma", .list ss, i] =>
     match ss.mapM decSig, decInstr i, decOut out with
     | some sigs, some (instr, kind), some (o, knownErr) =>
